@@ -273,7 +273,7 @@ func rethrowRapid(e any) {
 
 // TestC12: composite index keys preserve value order and are unambiguous.
 func TestC12(t *testing.T) {
-	rec := ev.New("C12", "rapid-generated record pairs (1-5 fields of arbitrary bytes, weight on 0x00, 0x00 0x00, 0x00 0x01, 0x01, trailing zeros and empty fields; second record a near neighbour of the first in 3 of 4 cases) with index specs (field permutations, _lower! fields, secondary fields of unique indexes); tuple-level checks of Encoder/Decode/Decode1/HasPrefix/SplitPrefixSuffix/JoinPrefixSuffix/TruncFunc and of rangeEnd over packed-like fields. Non-trivial: a pair whose indexed tuples share a leading field or a byte prefix of the first differing field and contain a zero byte; distinct = by rendered pair + spec.")
+	rec := ev.New("C12", "rapid-generated record pairs (1-5 fields of arbitrary bytes, weight on 0x00, 0x00 0x00, 0x00 0x01, 0x01, trailing zeros and empty fields; second record a near neighbour of the first in 3 of 4 cases) with index specs (field permutations, _lower! fields, secondary fields of unique indexes); Encoder scripts (Add of generated fields, 35 % empty, Dup at generated points incl. right after 0-3 leading empty fields, continued on original and copy, String) against the tuple model; tuple-level checks of Decode/Decode1/HasPrefix/SplitPrefixSuffix/JoinPrefixSuffix/TruncFunc and of rangeEnd over packed-like fields. Non-trivial: a pair whose indexed tuples share a leading field or a byte prefix of the first differing field and contain a zero byte; distinct = by rendered pair + spec.")
 	rec.Assumptions = []string{
 		"the order and the key format are the harness's own tuple-level model of the documented format (0,0 separator, 0 -> 0,1, trailing empty fields dropped, single-field keys not encoded, secondary fields only when all main fields are empty)",
 		"checks involving ixkey.Max (rangeEnd) use fields that are empty or start with a pack tag 0..7, as every real caller does",
@@ -285,7 +285,7 @@ func TestC12(t *testing.T) {
 	e2, truncF2Known := kf.Known("C12", "truncfunc-fields2-all-empty")
 	truncInnerWhat, truncF2What := e1.What, e2.What
 
-	rt.Check(t, rec, "order", 40000, 500000, func(t *rapid.T) {
+	rt.Check(t, rec, "order", 30000, 500000, func(t *rapid.T) {
 		nf := (1 + gen.Uniform(t, "nf", 5))
 		sp := genSpec(t, nf)
 		r1 := genTuple(t, nf, rawField(), "f")
@@ -376,7 +376,7 @@ func TestC12(t *testing.T) {
 		}
 	})
 
-	rt.Check(t, rec, "helpers", 30000, 400000, func(t *rapid.T) {
+	rt.Check(t, rec, "helpers", 25000, 400000, func(t *rapid.T) {
 		n := (1 + gen.Uniform(t, "n", 5))
 		tup := genTuple(t, n, rawField(), "f")
 		tr := trimTuple(tup)
@@ -512,7 +512,115 @@ func TestC12(t *testing.T) {
 		}
 	})
 
-	rt.Check(t, rec, "rangeend", 30000, 400000, func(t *rapid.T) {
+	// Encoder as a state machine: several live encoders, Add / Dup / String
+	// in generated order; every encoder has the tuple added so far as model.
+	rt.Check(t, rec, "encoder", 15000, 300000, func(t *rapid.T) {
+		type live struct {
+			enc   *ixkey.Encoder
+			model []string
+			name  string
+		}
+		encs := []*live{{enc: &ixkey.Encoder{}, name: "e0"}}
+		var hist []string
+		fail := func(format string, a ...any) {
+			t.Fatalf("%s\n  script: %s", fmt.Sprintf(format, a...), strings.Join(hist, "; "))
+		}
+		field := func() string {
+			if gen.Chance(t, "emptyfield", 35) {
+				return ""
+			}
+			return rawField().Draw(t, "f")
+		}
+		add := func(l *live, f string) {
+			l.enc.Add(f)
+			l.model = append(append([]string(nil), l.model...), f)
+			hist = append(hist, fmt.Sprintf("%s.Add(%s)", l.name, q(f)))
+		}
+		dups, dupsAfterLeadingEmpty := 0, 0
+		dup := func(l *live) {
+			// the copy must equal the original at this moment: a second copy is
+			// rendered at once, the first one lives on
+			probe := l.enc.Dup()
+			c := &live{enc: l.enc.Dup(), model: append([]string(nil), l.model...), name: fmt.Sprintf("e%d", len(encs))}
+			hist = append(hist, fmt.Sprintf("%s=%s.Dup()", c.name, l.name))
+			if got, want := probe.String(), encTuple(l.model); got != want {
+				fail("Dup of an Encoder holding %s renders %q, the key of these fields is %q", qs(l.model), got, want)
+			}
+			// continuing on a copy must give the key of fields+more (the leading fields must not be forgotten)
+			more := field()
+			probe2 := l.enc.Dup()
+			probe2.Add(more)
+			ext := append(append([]string(nil), l.model...), more)
+			if got, want := probe2.String(), encTuple(ext); got != want {
+				fail("Dup of an Encoder holding %s, then Add(%q), renders %q; the key of %s is %q", qs(l.model), more, got, qs(ext), want)
+			}
+			encs = append(encs, c)
+			dups++
+			lead := 0
+			for lead < len(l.model) && l.model[lead] == "" {
+				lead++
+			}
+			switch {
+			case len(l.model) == 0:
+				rec.Label("encoder_dup_of_fresh_encoder")
+			case lead == len(l.model):
+				dupsAfterLeadingEmpty++
+				rec.Label(fmt.Sprintf("encoder_dup_after_only_%s_empty_fields", bucket(lead, 1, 2)))
+			case lead > 0:
+				rec.Label("encoder_dup_after_leading_empty_then_data")
+			default:
+				rec.Label("encoder_dup_after_data")
+			}
+		}
+		render := func(l *live) {
+			got, want := l.enc.String(), encTuple(l.model)
+			hist = append(hist, fmt.Sprintf("%s.String()", l.name))
+			if got != want {
+				fail("Encoder %s with fields %s renders %q, model %q", l.name, qs(l.model), got, want)
+			}
+			if got2 := ixkey.Decode(got); !tupleEq(got2, trimTuple(l.model)) {
+				fail("Decode(%q) = %s, fields were %s", got, qs(got2), qs(l.model))
+			}
+			l.model = nil // String resets the Encoder
+		}
+		// opening: 0-3 empty fields, possibly followed directly by a Dup
+		if gen.Chance(t, "opening", 50) {
+			for range gen.Uniform(t, "leadingempty", 4) {
+				add(encs[0], "")
+			}
+			if gen.Chance(t, "dupnow", 70) {
+				dup(encs[0])
+			}
+		}
+		steps := 3 + gen.Uniform(t, "steps", 12)
+		for range steps {
+			l := encs[gen.Uniform(t, "which", len(encs))]
+			switch gen.Weighted(t, "act", []int{55, 25, 20}) {
+			case 0:
+				add(l, field())
+			case 1:
+				if len(encs) < 6 {
+					dup(l)
+				} else {
+					add(l, field())
+				}
+			default:
+				render(l)
+			}
+		}
+		// at the end every encoder still is what its own history says (independence)
+		for _, l := range encs {
+			render(l)
+		}
+		rec.Case(dups > 0 && len(hist) > 4, "e"+strings.Join(hist, ";"))
+		rec.LabelIf(dups > 0, "encoder_script_with_dup")
+		rec.LabelIf(dupsAfterLeadingEmpty > 0, "encoder_script_dup_after_only_empty_fields")
+		if dupsAfterLeadingEmpty > 0 && rec.WantSample("encoder") {
+			rec.Sample("encoder", map[string]any{"script": hist})
+		}
+	})
+
+	rt.Check(t, rec, "rangeend", 25000, 400000, func(t *rapid.T) {
 		n := (1 + gen.Uniform(t, "n", 4))
 		tgt := genTuple(t, n, packedField(), "f") // the target key's fields (n = number of key columns)
 		if allEmpty(tgt) {
